@@ -226,10 +226,10 @@ def run(tier):
             dl = re.split(r"\r\n|\n", text)
             for dg in o["results"][1].get("diagnostics", {}).get("diagnostics", []):
                 names = re.findall(r"`(\w+)`", dg["message"])
-                if not names:
+                if not names or not dg["message"].startswith("Unused"):
                     continue
                 got = slice_range(dg["range"], dl)
-                if got not in names:
+                if got != names[-1]:
                     wide = any(ord(ch) > 0xFFFF for ch in text)
                     res.violation("C19:position-encoding:diagnostic-range" if wide else "C19:diagnostic-range-not-name",
                                   {"text": text, "message": dg["message"], "range": dg["range"], "slice_utf16": got})
